@@ -73,9 +73,10 @@ def gen_soil(rng):
         lays = [list(x) for x in LAYER_LIB[rng.integers(len(LAYER_LIB))]]
         soil["layers"] = lays
         return soil
+    thin = nlay >= 3 and rng.random() < 0.6     # several layer boundaries inside the profile, on compartment bottoms
     for i in range(nlay):
-        t = float(rng.choice(THICK))
-        if rng.random() < 0.15:
+        t = float(rng.choice([0.1, 0.2, 0.3, 0.4, 0.5])) if (thin and i < nlay - 1) else float(rng.choice(THICK))
+        if rng.random() < 0.15 and not (thin and i < nlay - 1):
             t = float(round(sum(dz), 2))
         pen = float(rng.choice([100, 100, 70, 40]))
         if rng.random() < 0.3:
